@@ -331,13 +331,23 @@ def run_c16(chk):
         s = sess.Session(h)
         for l in prog:
             each(s, s.line(l))
-        each(s, s.line("RUN"))
-        for rw in s.run_until_idle(replies=["abc", "5"], max_turns=400):
-            each(s, rw)
+        # three runs in a row: what an error leaves behind must not add up across runs (seeded changes C16-mut7 / C10-mut7:
+        # the evaluation-depth counter was not released on the error path)
+        for rep in range(3):
+            if s.dead or s.state != "Idle":
+                break
+            each(s, s.line("RUN"))
+            for rw in s.run_until_idle(replies=["abc", "5"], max_turns=400):
+                each(s, rw)
+            if s.state in ("Running", "AwaitingInput") and not s.dead:
+                each(s, s.brk())
         if s.state == "Idle" and not s.dead:
             each(s, s.line("PRINT 1"))      # still usable
             if s.ops[-1][1].outcome != "ok":
-                chk.fail("unusable-after-cap", f"after {prog} the interpreter answers {s.ops[-1][1].outcome}", session_replay(s))
+                chk.fail("unusable-after-cap", f"after three runs of {prog} the interpreter answers {s.ops[-1][1].outcome}", session_replay(s))
+            each(s, s.line("PRINT ((((((((((((((((((((1 + 1))))))))))))))))))))"))      # ... at depth too
+            if s.ops[-1][1].outcome != "ok":
+                chk.fail("unusable-after-cap", f"after three runs of {prog} a 20-deep expression answers {s.ops[-1][1].outcome}", session_replay(s))
         sessions.append(s.ops)
         chk.case(tuple(prog), sample={"program": prog[:6]})
         idx += 1
@@ -374,7 +384,7 @@ def run_c10(chk):
             if a.dead:
                 break
             if a.state == "Idle":
-                k = r.weighted([("run", 25), ("imm", 40), ("cont", 10), ("rand", 8), ("goto", 10)])
+                k = r.weighted([("run", 25), ("imm", 40), ("cont", 10), ("rand", 8), ("goto", 10), ("deepfail", 7)])
                 hist.append(k)
                 chk.count("hist:" + k)
                 if k == "run":
@@ -384,6 +394,11 @@ def run_c10(chk):
                                      "READ A,B", "I = 99", "DIM M(2,2)", "PRINT 1/0", "INPUT X", "DEF F(X)=X", "K = RND(1)"]))
                 elif k == "cont":
                     a.line("CONT")
+                elif k == "deepfail":
+                    # expressions that fail deep inside: nothing of the evaluation may outlive the error (C10-mut7)
+                    for _ in range(3):
+                        if a.state == "Idle" and not a.dead:
+                            a.line("PRINT " + "(" * 30 + r.choice(["1/0", "1 + \"a\"", "N(99)", "F9("]) + ")" * 30)
                 elif k == "rand":
                     a.rand(r.choice(SEEDS))
                 else:
